@@ -46,6 +46,34 @@ func init() {
 
 type payloadT struct{ tag string }
 
+// payloadOf: the value the interrupt function panics with.  Whatever its kind - a Go pointer,
+// string or error, an otto Value, the *otto.Error of an earlier API call - Run must unwind with
+// exactly that value (it is not a JavaScript exception, even when it looks like one).
+var sampleOttoError = func() error { _, err := otto.New().Run(`throw new TypeError("halt-error")`); return err }()
+
+func samePayload(p, payload any) bool {
+	if e, ok := payload.(error); ok && e != sampleOttoError {
+		pe, ok := p.(error)
+		return ok && pe.Error() == e.Error()
+	}
+	return p == payload
+}
+
+func payloadOf(k int) any {
+	switch k % 5 {
+	case 1:
+		return fmt.Sprintf("halt-%d", k)
+	case 2:
+		return fmt.Errorf("halt-%d", k)
+	case 3:
+		v, _ := otto.ToValue(fmt.Sprintf("halt-value-%d", k))
+		return v
+	case 4:
+		return sampleOttoError
+	}
+	return &payloadT{fmt.Sprintf("halt-%d", k)}
+}
+
 type injection struct {
 	K         int     `json:"k"`
 	Delivered bool    `json:"delivered"`
@@ -165,9 +193,14 @@ type runner struct {
 	hs  *hookState
 }
 
-func newRunner(armAt int, payload any, limit int) *runner {
+// cbMode: the API entry point the host function CB calls back through (see c01.NewVMMode)
+func newRunner(armAt int, payload any, limit int, cbMode ...int) *runner {
 	r := &runner{}
-	r.vm = c01.NewVM(&r.log)
+	mode := 0
+	if len(cbMode) > 0 {
+		mode = cbMode[0]
+	}
+	r.vm = c01.NewVMMode(&r.log, mode)
 	if limit > 0 {
 		r.vm.SetStackDepthLimit(limit)
 	}
@@ -265,7 +298,7 @@ func Check(c *core.Ctx) (map[string]any, []string, error) {
 			for r := range jobs {
 				err := watchdog(func() {
 					// uninterrupted run (hook counts polls), then the follow-up on the same runtime
-					full := newRunner(0, nil, r.line.Limit)
+					full := newRunner(0, nil, r.line.Limit, r.line.ID)
 					o1, p1 := full.run(r.src)
 					if p1 != nil {
 						c.Violate(fmt.Sprintf("Go panic %v escaped Run without any interrupt armed:\n%s", p1, r.src), map[string]any{"source": r.src})
@@ -288,10 +321,10 @@ func Check(c *core.Ctx) (map[string]any, []string, error) {
 						ks[len(ks)-1] = polls
 					}
 					for _, k := range ks {
-						payload := &payloadT{fmt.Sprintf("halt-%d", k)}
-						rn := newRunner(k, payload, r.line.Limit)
+						payload := payloadOf(k)
+						rn := newRunner(k, payload, r.line.Limit, r.line.ID)
 						o, p := rn.run(r.src)
-						inj := injection{K: k, Delivered: rn.hs.fired == k, Panicked: p == any(payload), Log: o.Log,
+						inj := injection{K: k, Delivered: rn.hs.fired == k, Panicked: samePayload(p, payload), Log: o.Log,
 							Depth: otto.VerifScopeDepth(rn.vm) - restDepth(), Labels: otto.VerifLabelCount(rn.vm)}
 						rn.vm.Interrupt = nil
 						fl, p2 := rn.run(followSrc)
